@@ -1246,6 +1246,15 @@ class ClientObservation:
                 stacklevel=2,
             )
         if self.cancelled:
+            # A listener that comes late (eg. the block-wise layer, which
+            # starts iterating only after the first response was assembled)
+            # still gets the latest -- typically the final -- response before
+            # register_errback hands it the reason the observation ended for.
+            if (
+                self._latest_response is not None
+                and getattr(self, "_cancellation_reason", None) is not None
+            ):
+                callback(self._latest_response)
             return
 
         self.callbacks.append(callback)
